@@ -171,6 +171,19 @@ def iter_source(I, st, it):
 
 
 def exec_for(I, st, node):
+    if isinstance(node.iter, (ast.List, ast.Tuple)) and not any(isinstance(e, ast.Starred) for e in node.iter.elts):
+        # a literal sequence is unrolled (finite, known length); elements are evaluated up front as Python does
+        vals = [I.eval(st, e) for e in node.iter.elts]
+        for v in vals:
+            I.assign(st, node.target, v)
+            try:
+                I.exec_block(st, node.body)
+            except ContinueExc:
+                continue
+            except BreakExc:
+                return
+        I.exec_block(st, node.orelse)
+        return
     it = I.eval(st, node.iter)
     kind, payload = iter_source(I, st, it)
     if kind == "empty":
